@@ -174,6 +174,13 @@ def write_evidence(mod, pid, tier, seed, info, tot, outcomes, nontrivial, counte
         json.dump(ev, fid, indent=1, sort_keys=True)
         fid.write('\n')
     os.replace(tmp, path)
+    # <pid>.json is always the last run; a copy per tier is kept as well so that the last quick and the last thorough run
+    # of the committed tree can both be inspected
+    path_t = os.path.join(VERIF_DIR, 'evidence', '%s.%s.json' % (pid, tier))
+    with open(path_t + '.tmp', 'w') as fid:
+        json.dump(ev, fid, indent=1, sort_keys=True)
+        fid.write('\n')
+    os.replace(path_t + '.tmp', path_t)
     return ev
 
 
